@@ -90,7 +90,7 @@ class GoExec:
         self.loop_cache = {}
         self.use_seq = False
         self.prop = prop
-        self.int_overflow_checks = True
+        self.int_overflow_checks = (word == 64)     # library code compiled by GopherJS: Go's wrap-around semantics, no obligation
         self.covers = []
         sm = {'seq': ByteSeq, 'int': I, 'arr': ArrII, 'bool': B}
         self.ghost_funcs = {k: sm[v] for k, v in getattr(spec, 'ghostfns', {}).items()}
@@ -336,7 +336,11 @@ class GoExec:
             return {'<': a < b, '<=': a <= b, '>': a > b, '>=': a >= b}[op]
         if op == '+': return self.wrap(a + b, tr, st, line)
         if op == '-': return self.wrap(a - b, tr, st, line)
-        if op == '*': return self.wrap(a * b, tr, st, line)
+        if op == '*':
+            ac, bc = z3.simplify(a), z3.simplify(b)
+            if z3.is_int_value(ac) or z3.is_int_value(bc):
+                return self.wrap(a * b, tr, st, line)
+            return self.wrap(self.abstract_product(st, a, b), tr, st, line)
         if op in ('/', '%'):
             self.oblige(st, 'divzero@%s' % line, b != 0, src=line)
             # Go truncated division on mathematical integers
@@ -374,6 +378,19 @@ class GoExec:
                         return x % (m + 1)
             raise Unsupported('bitwise & of two variables in mode int @%s' % line)
         raise Unsupported('operator %s in mode int @%s' % (op, line))
+
+    def abstract_product(self, st, a, b):
+        """product of two non-constant integers: the shared abstract symbol prod(a, b) with range facts that hold of true
+        multiplication; algebraic identities enter through lemmas proved separately (`interpret prod`)"""
+        p = PROD(a, b)
+        m16, m32 = 65535, (1 << 32) - 1
+        nn = z3.And(a >= 0, b >= 0)
+        st.assume(z3.And(z3.Implies(nn, p >= 0),
+                         z3.Implies(z3.And(nn, a <= m16, b <= m16), p <= m16 * m16),
+                         z3.Implies(z3.And(nn, a <= m32, b <= m16), p <= m32 * m16),
+                         z3.Implies(z3.And(nn, a <= m16, b <= m32), p <= m32 * m16),
+                         z3.Implies(z3.And(nn, a <= m32, b <= m32), p <= m32 * m32)))
+        return p
 
     def bvop(self, st, op, a, b, ta, tr, line):
         ii = self.tt.intinfo(ta) or (64, True)
